@@ -23,7 +23,7 @@ PY = "/venv/bin/python"
 
 
 def sh(cmd: list[str], **kw):  # type: ignore[no-untyped-def]
-    return subprocess.run(cmd, capture_output=True, text=True, **kw)
+    return subprocess.run(cmd, capture_output=True, text=True, errors="replace", **kw)
 
 
 def load_meta(sid: str) -> dict:
